@@ -9,7 +9,7 @@ import checks.pkt as PK
 
 TRACE = PK.TRACE
 CHECKER = PK.CHECKER + '; generator: Setup_MC.tla with Setup_MC_{sizes,shapes,mutations}.cfg'
-C01_RULES = PK.C01_RULES | {'Locality', 'LocalityCount'}
+C01_RULES = PK.C01_RULES | {'Locality', 'LocalityCount', 'PacketBitsConsumed'}
 
 def gen_cases(families=('sizes', 'shapes', 'mutations')):
     out = {}; stats = dict(states=0, transitions=0, runs={})
@@ -29,6 +29,20 @@ def gen_cases(families=('sizes', 'shapes', 'mutations')):
         elif not r['ok']: problems.append(('infra', f, r['out'][-800:]))
     return out, stats, problems
 
+def gen_books(tier):
+    """Codebook_MC: exhaustive design check of the codeword assignment + one decode test per length list"""
+    me, ml = (4, 3) if tier == 'quick' else (5, 4)
+    cfg = os.path.join(vlib.SPEC, f'.cb_{os.getpid()}.cfg')
+    open(cfg, 'w').write(f'SPECIFICATION Spec\nCONSTANTS MaxEntries = {me}\n MaxLenBits = {ml}\n Gen = TRUE\nINVARIANT OverIffKraft\nINVARIANT PrefixFree\nINVARIANT RoundTrip\nINVARIANT FirstIsZero\nINVARIANT ModelAgrees\nINVARIANT Export\nCHECK_DEADLOCK FALSE\n')
+    r = vlib.run_tlc('Codebook_MC.tla', os.path.basename(cfg), workers=6, timeout=2400); os.remove(cfg)
+    cases = []
+    for m in re.findall(r'"CASE (\{.*\})"', r['out']):
+        try: cases.append(json.loads(m.replace('\\"', '"')))
+        except Exception: pass
+    st = dict(ok=bool(r['ok']), cases=len(cases), distinct=r['distinct'], generated=r['generated'], max_entries=me, max_len=ml)
+    pr = [('design', 'Codebook_MC', r['out'][-2000:])] if r['violated'] else ([] if r['ok'] else [('infra', 'Codebook_MC', r['out'][-800:])])
+    return cases, st, pr
+
 def toks(fields): return ' '.join(f'{v}:{n}' for v, n in fields)
 
 def scn_from_case(rng, fam, i, c, nrand=3):
@@ -37,9 +51,9 @@ def scn_from_case(rng, fam, i, c, nrand=3):
     k = 0
     for a in c['audio']:
         ls.append(f"saud 0 {k} {a['W']} -1 0 {toks(a['f'])}"); k += 1
-    for j in range(nrand):
+    for j in range(nrand if fam != 'books' else 1):
         ls.append(f'srand 0 {k} {rng.randrange(1 << 30)} {rng.choice([1, 2, 7, 40, 300])} -1'); k += 1
-    if c['audio']:
+    if c['audio'] and fam != 'books':
         a = c['audio'][0]; ls.append(f"saud 0 {k} {a['W']} -1 0 {toks(a['f'])}"); k += 1
         a = c['audio'][1]; ls.append(f"saud 0 {k} {a['W']} -1 1 {toks(a['f'])}"); k += 1
     ls += ['plap 0', 'prest 0', 'pclr 0 bdci', 'pclr 0 bdci']
@@ -55,9 +69,10 @@ def check_c01(pid, tier, seed, replay=None):
     if replay: return _replay(pid, replay, 'pdh', *TRACE)
     t0 = time.time(); rng = random.Random(seed); q = tier == 'quick'
     bindir = vlib.build('asan')
-    with ThreadPoolExecutor(max_workers=2) as ex:
-        f1 = ex.submit(gen_cases); f2 = ex.submit(PK.model_check, tier)
-        (cases, gstats, problems), (mc, mcproblems) = f1.result(), f2.result()
+    with ThreadPoolExecutor(max_workers=3) as ex:
+        f1 = ex.submit(gen_cases); f2 = ex.submit(PK.model_check, tier); f3 = ex.submit(gen_books, tier)
+        (cases, gstats, problems), (mc, mcproblems), (books, bstats, bproblems) = f1.result(), f2.result(), f3.result()
+    cases['books'] = books; gstats['runs']['books'] = bstats; gstats['states'] += bstats['distinct']; gstats['transitions'] += bstats['generated']; problems = problems + bproblems
     extra_viol = []
     for kind, name, txt in problems + mcproblems:
         if kind == 'design':
@@ -79,7 +94,7 @@ def check_c01(pid, tier, seed, replay=None):
     nrej = sum(1 for s in scns for e in res['scn_events'].get(s.name, []) if e.get('e') == 'HeaderIn' and e.get('syn') == 1 and e.get('which') == 2 and e.get('ret') != 0)
     pairs = sorted(set((c['e0'], c['e1']) for c in cases.get('sizes', [])))
     return finish(pid, tier, seed, 'model_checking', scns, res, C01_RULES, t0,
-                  'scenarios = synthetic streams whose identification / setup headers and audio packets are written by TLC from Setup.tla as <<value,bits>> lists: every block-size pair 2^6..2^13 (1 and 2 channels), a family of shapes (residue 0/1/2 with and without stages, ordered / sparse / single-entry / lattice / explicit-value books, floor 0 and floor 1, two submaps with coupling, three modes, 255 channels, floor 1 without partitions) and one-field boundary mutations; the real decoder must accept and initialise every set-up the model calls well-formed, deliver exactly the spec\'s count for every packet of every short/long transition, and exact silence for silent spectra; plus clean decodes of encoder-made streams in full and half rate; non-trivial = the decoder initialised and decoded at least 3 packets; distinct by script hash',
+                  'scenarios = synthetic streams whose identification / setup headers and audio packets are written by TLC from Setup.tla as <<value,bits>> lists: every block-size pair 2^6..2^13 (1 and 2 channels), a family of shapes (residue 0/1/2 with and without stages, ordered / sparse / single-entry / lattice / explicit-value books, floor 0 and floor 1, two submaps with coupling, three modes, 255 channels, floor 1 without partitions) and one-field boundary mutations; codebooks: every length list over 0..3 bits with up to 4 entries (thorough: 0..4 bits, 5 entries) as the book through which floor-1 posts are read, with packets spelling chosen entries codeword by codeword; the real decoder must accept and initialise every set-up the model calls well-formed, deliver exactly the spec\'s count for every packet of every short/long transition, exact silence for silent spectra, and consume exactly the bits of the codewords the model wrote; plus clean decodes of encoder-made streams in full and half rate; non-trivial = the decoder initialised and decoded at least 3 packets; distinct by script hash',
                   nontrivial,
                   ['claimed: header acceptance of well-formed set-ups, initialisation, per-packet sample counts (every window transition, all 36 size pairs), exact silence; NOT decided: sample values of non-silent spectra (float arithmetic, section 6)',
                    'audio packets are silent-floor packets and pseudo-random bit strings; codeword-level packet synthesis (AudioPacket.tla) is not built', 'TLC, libogg, ASan build of the current tree'],
